@@ -113,6 +113,7 @@ type Exec struct {
 	PanicsAreViolations bool
 	BudgetAsViolation   bool
 	MaxPreempt          int
+	KindOverride        string // "exec": the next assertion is decided on executor-only evidence (write log, lockset)
 	Summaries map[*ssa.Function]*ssa.Function
 }
 
@@ -410,6 +411,9 @@ func formatModelVal(kind string, bv *big.Int) string {
 
 // Violate records a violation with a model consistent with the current path and the extra assumptions.
 func (x *Exec) Violate(kind, msg, kf string, assumps ...*smt.Term) {
+	if kind == "assert" && x.KindOverride != "" {
+		kind = x.KindOverride
+	}
 	draws, err := x.modelDraws(assumps...)
 	if err != nil {
 		panic(pathEnd{endUnknown, "violation model: " + err.Error()})
